@@ -104,7 +104,7 @@ func prepareSeed(cfg *PropCfg, tier string, seed uint64, known []proto.KnownFind
 		}
 	}
 	for _, sp := range specs {
-		batch.Programs = append(batch.Programs, proto.BatchProg{ID: sp.ID, Schema: sp.Schema, Bop: sp.Bop, Old: sp.Old, OldBop: sp.OldBop})
+		batch.Programs = append(batch.Programs, proto.BatchProg{ID: sp.ID, Schema: sp.Schema, Bop: sp.Bop, Old: sp.Old, OldBop: sp.OldBop, Masks: sp.Masks})
 	}
 	return &prepared{w: w, node: node, batch: batch, built: built}, nil
 }
